@@ -57,7 +57,7 @@ def handled_set_sites : List (String × IterArg) := [
   ("src.graph_based_model_construction:GraphBasedModelConstructor.collect_terminal_exons_from_graph:for:self.intron_graph.incoming_edges[intron]", .intKeys),
   ("src.graph_based_model_construction:GraphBasedModelConstructor.collect_terminal_exons_from_graph:for:self.intron_graph.outgoing_edges[intron]", .intKeys),
   ("src.graph_based_model_construction:GraphBasedModelConstructor.correct_novel_transcript_ends:for:read_starts", .sortedBefore),
-  ("src.graph_based_model_construction:GraphBasedModelConstructor.select_reference_gene:for:self.intron_genes[intron]", .commutative),
+  ("src.graph_based_model_construction:GraphBasedModelConstructor.select_reference_gene:for:self.intron_genes[intron] => sorted(gene_counts.items(), key=lambda x: (x[1], x[0]), reverse=True)", .modelled),
   ("src.intron_graph:IntronCollector.simplify_correction_map:for:to_remove", .intKeys),
   ("src.intron_graph:IntronGraph.attach_transcpt_ends:comp:self.incoming_edges[intron]", .intKeys),
   ("src.intron_graph:IntronGraph.attach_transcpt_ends:comp:self.outgoing_edges[intron]", .intKeys),
@@ -66,10 +66,10 @@ def handled_set_sites : List (String × IterArg) := [
   ("src.intron_graph:IntronGraph.collapse_vertex:for:self.outgoing_edges[to_collapse]", .intKeys),
   ("src.intron_graph:IntronGraph.get_connected_component:for:self.incoming_edges[intron]", .intKeys),
   ("src.intron_graph:IntronGraph.get_connected_component:for:self.outgoing_edges[intron]", .intKeys),
-  ("src.intron_graph:IntronGraph.get_incoming:for:self.incoming_edges[intron]", .intKeys),
-  ("src.intron_graph:IntronGraph.get_outgoing:for:self.outgoing_edges[intron]", .intKeys),
+  ("src.intron_graph:IntronGraph.get_incoming:for:self.incoming_edges[intron] => sorted(res)", .intKeys),
+  ("src.intron_graph:IntronGraph.get_outgoing:for:self.outgoing_edges[intron] => sorted(res)", .intKeys),
   ("src.intron_graph:IntronGraph.get_overlapping_component_max_coverage:comp:processed_introns", .intKeys),
-  ("src.intron_graph:IntronGraph.get_overlapping_component_max_coverage:for:all_vertices", .intKeys),
+  ("src.intron_graph:IntronGraph.get_overlapping_component_max_coverage:for:all_vertices => for:processed_introns ; max((self.intron_collector.clustered_introns[i] for i in processed_introns))", .intKeys),
   ("src.intron_graph:IntronGraph.get_overlapping_component_max_coverage:for:self.incoming_edges[intron]", .intKeys),
   ("src.intron_graph:IntronGraph.get_overlapping_component_max_coverage:for:self.outgoing_edges[intron]", .intKeys),
   ("src.intron_graph:IntronGraph.is_end_internal:for:self.outgoing_edges[intron]", .intKeys),
